@@ -457,6 +457,9 @@ func checkC08(c *Ctx) {
 				if !chips {
 					okChain, d = false, "the settle step lists a survivor without testing that player's bankroll > 0"
 				}
+				if bad := notStartingEmpty(p, ci); bad != "" {
+					okChain, d = false, "the survivor list does not start empty ("+bad+")"
+				}
 				// the survivor is the player just credited: same object as the bankroll store of this iteration
 				credited := false
 				for _, ss := range p.Stores([]*ssa.Function{lc.settleFn}) {
